@@ -570,6 +570,12 @@ def work_C05(run, rng, budget):
         m = G.gen_mol(rng, max_n=26, family="rare_elements")
         sizes(run, m)
         one(mol_graph(m), m.family, {"mol": mol_repr(m)})
+    # all 118 elements in one molecule: the blocks of the string must follow the atomic numbers of the periodic table
+    syms = list(G.ELEMENTS)
+    rng.shuffle(syms)
+    m = G.decorate(len(syms), G.sk_random(len(syms), 0.02, rng), rng, syms=syms, family="all118")
+    sizes(run, m)
+    one(mol_graph(m), m.family, {"mol": mol_repr(m)})
     # molecules as the readers produce them, including explicitly written defaults
     for _ in range(40 * budget):
         m = G.gen_mol(rng, max_n=10)
@@ -789,9 +795,26 @@ def exotic_stream(run, rng, count, renderer, opts=None):
         run.stats["exotic"] += 1
 
 
+def all_elements_mol(rng):
+    syms = list(G.ELEMENTS)
+    rng.shuffle(syms)
+    return G.decorate(len(syms), G.sk_random(len(syms), 0.02, rng), rng, syms=syms, family="all118")
+
+
 def work_C07(run, rng, budget):
     string_layer_ops(run, rng, 300 * budget)
     exotic_stream(run, rng, 120 * budget, RD.render_v3000)
+    # every element of the periodic table in one file
+    m = all_elements_mol(rng)
+    sizes(run, m)
+    text, info = RD.render_v3000(m, rng, {"star": False})
+    line, real, rinfo = R.op_moltext(text)
+    run.corr(line, real, "atom-order")
+    g = rinfo.get("graph")
+    run.case(("C07all118", text), True)
+    why = "reader raised: " + real if g is None else compare_read(g, m)
+    if why:
+        run.fail("v3000-read-differs-from-file", f"all 118 elements: {why}", {"mol": mol_repr(m), "text": text})
     for m in molecules(run, rng, 150 * budget, max_n=14):
         maybe_zero_d(run, m, rng, 0.15)
         for k in range(2):
@@ -902,6 +925,9 @@ def c08_molecules(run, rng, budget):
         m = G.gen_mol(rng, family="charged_dt")
         sizes(run, m)
         yield m, {"dt": True, "zeros": True}
+    m = all_elements_mol(rng)
+    sizes(run, m)
+    yield m, None
     # fewer than 100 atoms with 100 or more bonds, and the reverse: a two-digit count next to a three-digit one on the
     # counts line (the fixed-width fields abut)
     for _ in range(2 * budget):
